@@ -209,7 +209,7 @@ func cmdCheck(args []string) int {
 		runs = append(runs, &HarnessRun{Spec: s, fn: f})
 	}
 	workers, _ := strconv.Atoi(envOr("VERIF_WORKERS", "16"))
-	tmo, _ := strconv.Atoi(envOr("VERIF_SOLVER_TIMEOUT_MS", "20000"))
+	tmo, _ := strconv.Atoi(envOr("VERIF_SOLVER_TIMEOUT_MS", "60000"))
 	pool := NewPool(prog, Config{MaxSteps: 3000000, TimeoutMs: tmo, Workers: workers})
 	te := time.Now()
 	pool.RunAll(runs)
